@@ -5,9 +5,9 @@ import (
 	"encoding/binary"
 	"fmt"
 	"math"
+	"reflect"
 	"runtime"
 	"sync"
-	"reflect"
 
 	"github.com/openacid/slim/encode"
 )
@@ -103,7 +103,24 @@ type teDur int64
 type teID uint16
 type teArr [3]uint16
 
-const teKinds = 8
+const teKinds = 17
+
+// every plain builtin fixed-size scalar kind that encoding/binary supports
+var teScalars = []struct {
+	zero, ptr interface{}
+	w         int
+	conv      func(uint64) interface{}
+}{
+	8:  {uint8(0), new(uint8), 1, func(x uint64) interface{} { return uint8(x) }},
+	9:  {uint16(0), new(uint16), 2, func(x uint64) interface{} { return uint16(x) }},
+	10: {uint32(0), new(uint32), 4, func(x uint64) interface{} { return uint32(x) }},
+	11: {uint64(0), new(uint64), 8, func(x uint64) interface{} { return uint64(x) }},
+	12: {int8(0), new(int8), 1, func(x uint64) interface{} { return int8(x) }},
+	13: {int16(0), new(int16), 2, func(x uint64) interface{} { return int16(x) }},
+	14: {int64(0), new(int64), 8, func(x uint64) interface{} { return int64(x) }},
+	15: {float64(0), new(float64), 8, func(x uint64) interface{} { return math.Float64frombits(x) }},
+	16: {false, new(bool), 1, func(x uint64) interface{} { return x&1 == 1 }},
+}
 
 func putOrd(b []byte, v uint64, w int, big bool) []byte {
 	for i := 0; i < w; i++ {
@@ -126,6 +143,22 @@ func typeEncCase(which int, p []byte, big bool) (interface{}, []byte) {
 			return v
 		}
 		return r.next()
+	}
+	if k := which % teKinds; k >= 8 {
+		sc := teScalars[k]
+		x := nx()
+		switch k {
+		case 15: // keep away from NaN: NaN != NaN
+			if x&0x7ff0000000000000 == 0x7ff0000000000000 {
+				x &^= 0x0010000000000000
+			}
+		case 16:
+			x &= 1
+		}
+		if sc.w < 8 {
+			x &= 1<<(8*uint(sc.w)) - 1
+		}
+		return sc.conv(x), putOrd(nil, x, sc.w, big)
 	}
 	switch which % teKinds {
 	case 0:
@@ -186,7 +219,9 @@ func typeEncCase(which int, p []byte, big bool) (interface{}, []byte) {
 // 2: NewTypeEncoderEndianByType, 3: NewTypeEncoder (little-endian default; only when !big).
 func typeEncoderFor(which int, big bool, ctor int) (encode.Encoder, error) {
 	var zero, ptr interface{}
-	switch which % teKinds {
+	switch k := which % teKinds; k {
+	case 8, 9, 10, 11, 12, 13, 14, 15, 16:
+		zero, ptr = teScalars[k].zero, teScalars[k].ptr
 	case 0:
 		zero, ptr = te1{}, &te1{}
 	case 1:
